@@ -103,6 +103,7 @@ def required_cells(tier):
            "coupling:diagonal": 2, "coupling:nondiagonal": 2,
            "filebacked:named": 2, "filebacked:temp": 2,
            "filebacked:class": 1, "unique": 1,
+           "filebacked:relabelled-while-open": 1,
            "overwrite:export-refused": 2, "overwrite:export-replaced": 2,
            "overwrite:pttempo-refused": 1, "overwrite:pttempo-replaced": 1,
            "direct-file": 2, "tensors_compared": 500, "caps_compared": 500,
@@ -1136,6 +1137,21 @@ def run_pttempo(case):
         ctx.cells.append("filebacked:named")
         if idx % 2:
             ctx.cells.append("filebacked:class")
+        snap_orig = snap
+        if idx % 3 == 1:
+            # both results are labelled AFTER the computation, the file one
+            # while it is still open for writing: the file must hold the
+            # labels that were assigned
+            newname = f"relabelled run {idx}"
+            newdesc = f"alpha, T, coupling of run {idx}; dt={dt}"
+            for obj in (pt, fpt):
+                obj.name = newname
+                obj.description = newdesc
+            snap = observe(pt)
+            fsnap = observe(fpt)
+            compare_attributes(ctx, snap, fsnap,
+                               "file-backed PT-TEMPO relabelled while open")
+            ctx.cells.append("filebacked:relabelled-while-open")
         objs.append(("file-backed PT-TEMPO (open)", fpt, True))
 
         # --- temporary file (process_tensor_file=True) -------------------
@@ -1149,7 +1165,8 @@ def run_pttempo(case):
                     os.path.realpath(scr.dir):
                 ctx.obs["temp_file_elsewhere"] = 1.0
             check_file_backed(tpt, ptt2,
-                              "file-backed PT-TEMPO (temporary file)", snap)
+                              "file-backed PT-TEMPO (temporary file)",
+                              snap_orig)
             ctx.cells.append("filebacked:temp")
             if idx % 4 == 2:
                 ctx.cells.append("filebacked:class")
